@@ -249,6 +249,13 @@ def erase (t : HT) (k e : Nat) : R HT := do
   | some c => pure { wr t1 j { b with chain := c } with size := t1.size - 1 }
   | none => pure t1
 
+/-- what a successful `realloc` to `sz` buckets does to the array: the first
+`min sz size` buckets are kept; added memory is uninitialised in C (the code
+never reads it before `cstl_hash_resize` has initialised it), here empty. -/
+def resizeArr (a : Array Bucket) (sz : Nat) : Array Bucket :=
+  if sz ≤ a.size then a.extract 0 sz
+  else a ++ Array.replicate (sz - a.size) { chain := [], cst := false }
+
 /-- `__cstl_hash_set_capacity(h, sz)`, repaired (defect #12): a bucket byte
 count that does not fit `size_t` is an allocation failure; otherwise `realloc`
 is asked for `sizeof(struct cstl_hash_bucket) * sz = (16 * sz) mod 2^64` bytes.
@@ -262,10 +269,7 @@ def setCapacity (oracle : Nat → Bool) (t : HT) (sz : Nat) : R HT :=
     let bytes := (16 * sz) % 2 ^ 64
     let ok := oracle bytes
     logEv (.realloc bytes ok)
-    if ok then
-      pure { t with bk := if sz ≤ t.bk.size then t.bk.extract 0 sz
-                          else t.bk ++ Array.replicate (sz - t.bk.size) { chain := [], cst := false } }
-    else pure t
+    if ok then pure { t with bk := resizeArr t.bk sz } else pure t
 
 /-- the bucket-initialisation loop of `cstl_hash_resize`: `at[i] = (NULL, cst)` for `i` in `[lo, lo+d)` -/
 def initBuckets (t : HT) (lo : Nat) : Nat → R HT
@@ -274,25 +278,40 @@ def initBuckets (t : HT) (lo : Nat) : Nat → R HT
     let _ ← rd t lo
     initBuckets (wr t lo { chain := [], cst := t.cst }) (lo + 1) d
 
+/-- the hash function `cstl_hash_resize` installs: the one given, else the
+current one, else `cstl_hash_mul` -/
+def pickHash (f cur : Option HashId) : HashId :=
+  match f with
+  | some g => g
+  | none => match cur with
+    | some h => h
+    | none => mulId
+
+/-- the part of `cstl_hash_resize` after the pending rehash has been forced:
+flip the table bit, initialise the added buckets as clean, install the pending
+geometry (on the first resize: the geometry itself) -/
+def resizeTail (t2 : HT) (n : Nat) (f : Option HashId) : R HT := do
+  let t3 := { t2 with cst := !t2.cst }
+  let t4 ← initBuckets t3 t3.count (n - t3.count)
+  let g := pickHash f t4.hash
+  let t5 := { t4 with rhHash := some g, rhCount := n, clean := 0 }
+  if t5.hash = none then
+    pure { t5 with hash := some g, count := n, rhHash := none }
+  else pure t5
+
+/-- `if (count > h->bucket.capacity) __cstl_hash_set_capacity(h, count);` -/
+def ensureCapacity (oracle : Nat → Bool) (t : HT) (n : Nat) : R HT :=
+  if t.bk.size < n then setCapacity oracle t n else pure t
+
 /-- `cstl_hash_resize(h, n, f)`, repaired (defect #4): the request is compared
 with the geometry the table is heading for -/
 def resize (oracle : Nat → Bool) (t : HT) (n : Nat) (f : Option HashId) : R HT :=
   if n = 0 then pure t
   else do
-    let t1 ← if t.bk.size < n then setCapacity oracle t n else pure t
+    let t1 ← ensureCapacity oracle t n
     if t1.bk.size ≠ 0 ∧ n ≤ t1.bk.size ∧ (n ≠ t1.effCount ∨ (f ≠ none ∧ f ≠ t1.effHash)) then do
       let t2 ← rehash hf t1
-      let t3 := { t2 with cst := !t2.cst }
-      let t4 ← initBuckets t3 t3.count (n - t3.count)
-      let g : HashId := match f with
-        | some g => g
-        | none => match t4.hash with
-          | some h => h
-          | none => mulId
-      let t5 := { t4 with rhHash := some g, rhCount := n, clean := 0 }
-      if t5.hash = none then
-        pure { t5 with hash := some g, count := n, rhHash := none }
-      else pure t5
+      resizeTail t2 n f
     else pure t1
 
 /-- `cstl_hash_shrink_to_fit` -/
@@ -311,16 +330,20 @@ structure Walk where
   res : Int
 deriving Repr
 
+/-- what the visit callback of `cstl_hash_foreach` may do to the table: with
+`er` it calls `cstl_hash_erase` on the element it is visiting -/
+def visitErase (t : HT) (er : Bool) (n : Node) : R HT :=
+  if er then erase hf t n.key n.id else pure t
+
 /-- `cstl_hash_bucket_foreach` under `__cstl_hash_foreach`: the successor is read
 before the visit; the callback returns (result, erase-me): with erase-me it
 calls `cstl_hash_erase` on the element it is visiting before it returns. -/
 def bucketWalk (visit : Nat → Node → Int × Bool) (w : Walk) : List Node → R Walk
   | [] => pure w
   | n :: ns => do
-    let (r, er) := visit w.idx n
-    let t' ← if er then erase hf w.t n.key n.id else pure w.t
-    let w' : Walk := { t := t', idx := w.idx + 1, seen := n :: w.seen, res := r }
-    if r ≠ 0 then pure w' else bucketWalk visit w' ns
+    let t' ← visitErase hf w.t (visit w.idx n).2 n
+    let w' : Walk := { t := t', idx := w.idx + 1, seen := n :: w.seen, res := (visit w.idx n).1 }
+    if (visit w.idx n).1 ≠ 0 then pure w' else bucketWalk visit w' ns
 
 /-- upper bound of the bucket walk of `__cstl_hash_foreach`, repaired (defect
 #2): the pending count while a grow is pending -/
@@ -351,13 +374,20 @@ def foreachConst (t : HT) (visit : Nat → Node → Int) : R (Int × List Node) 
   let w ← hforeach hf t (fun i n => (visit i n, false))
   pure (w.res, w.seen.reverse)
 
+/-- the walk of `cstl_hash_clear`: every element is handed to `clr` (which returns nothing) -/
+def clearWalk (t : HT) (withCb : Bool) : R Walk :=
+  if withCb then hforeach hf t (fun _ _ => (0, false))
+  else pure { t := t, idx := 0, seen := [], res := 0 }
+
+/-- `free(h->bucket.at)` -/
+def freeArr (t : HT) : R Unit := if t.bk.size ≠ 0 then logEv .free else pure ()
+
 /-- `cstl_hash_clear(h, clr)`, repaired (defect #3: the current hash function
 is reset as well).  `withCb = false` is `clr == NULL`.  Returns the emptied
 table and the elements handed to `clr`, in order. -/
 def clear (t : HT) (withCb : Bool) : R (HT × List Node) := do
-  let w ← if withCb then hforeach hf t (fun _ _ => (0, false))
-          else pure { t := t, idx := 0, seen := [], res := 0 }
-  if t.bk.size ≠ 0 then logEv .free else pure ()
+  let w ← clearWalk hf t withCb
+  freeArr t
   pure ({ w.t with bk := #[], count := 0, hash := none, rhHash := none, size := 0 }, w.seen.reverse)
 
 end
